@@ -18,7 +18,7 @@ LABEL: list = [None]   # label of the message now being sent (set by probes arou
 
 
 class Pkt:
-    __slots__ = ("cause", "data", "dst", "dup", "id", "injected", "label", "src", "src_node", "t", "wire_src")
+    __slots__ = ("cause", "data", "dst", "dup", "fate", "id", "injected", "label", "orig", "src", "src_node", "t", "wire_src")
 
     def __init__(self, pid, t, src, dst, data, src_node, label, cause, injected=False) -> None:  # noqa: ANN001
         self.id = pid
@@ -32,6 +32,8 @@ class Pkt:
         self.cause = cause
         self.injected = injected
         self.dup = False
+        self.fate = None
+        self.orig = None          # bytes before an in-flight alteration
 
     def __repr__(self) -> str:
         return f"<Pkt {self.id} {self.src}->{self.dst} {len(self.data)}B {self.label}>"
@@ -328,6 +330,7 @@ class SimNet:
                 self._notify(pkt, "filtered")
                 return
             if isinstance(r, (bytes, bytearray)):
+                pkt.orig = pkt.data
                 pkt.data = bytes(r)
         if self._decide(n, "loss", u_loss, self.loss):
             self._notify(pkt, "lost")
